@@ -71,8 +71,9 @@ func pick(bundles []*types.CertificateBundle, pref string, invert bool) *types.C
 }
 
 func (w *world) mint(kind string) func(req *types.GenerateServerCertificatesRequest, pref string) (*harness.RogueCert, error) {
+	nodePkix := w.n1.K.Pkix
 	gen := func(store *harness.MemStore, nonce []byte) (*types.GenerateServerCertificatesResponse, ed25519.PrivateKey) {
-		resp, err := nodetls.GenerateServerCertificates(harness.Ctx, store, &types.GenerateServerCertificatesRequest{CertificatePublicKeyPkix: w.n1.K.Pkix, Nonce: nonce, SkipVerification: true})
+		resp, err := nodetls.GenerateServerCertificates(harness.Ctx, store, &types.GenerateServerCertificatesRequest{CertificatePublicKeyPkix: nodePkix, Nonce: nonce, SkipVerification: true})
 		if err != nil {
 			panic(err)
 		}
@@ -80,6 +81,9 @@ func (w *world) mint(kind string) func(req *types.GenerateServerCertificatesRequ
 		return resp, k.(ed25519.PrivateKey)
 	}
 	return func(req *types.GenerateServerCertificatesRequest, pref string) (rc *harness.RogueCert, err error) {
+		if len(req.CertificatePublicKeyPkix) > 0 {
+			nodePkix = req.CertificatePublicKeyPkix // the dialling node's key (n1 in the plain rogue cases)
+		}
 		defer func() {
 			// like the real server, announce the real roots as acceptable client CAs
 			if rc != nil {
@@ -193,6 +197,70 @@ func (w *world) oneRogue(kind string, r *engine.Report) (string, string) {
 	return "", ""
 }
 
+// oneRelay: an operator-authorized but not yet enrolled node dials through a
+// network position that lets its fetch handshake reach the real server and
+// answers the authentication handshake of the same Dial with a rogue server.
+func (w *world) oneRelay(kind string, r *engine.Report) (string, string) {
+	vclock.Freeze(dialTime)
+	st := w.st.Clone()
+	node := harness.NewMemStore()
+	creds, err := types.NewNodeCredentials(harness.Ctx, node)
+	if err != nil {
+		panic(err)
+	}
+	req, err := creds.CreateFetchNodeCredentialsRequest(harness.Ctx)
+	if err != nil {
+		panic(err)
+	}
+	if _, err := registration.AuthorizeNode(harness.Ctx, st, req); err != nil {
+		panic(err)
+	}
+	rg, err := harness.NewRogue(w.mint(kind))
+	if err != nil {
+		r.InfraError(err.Error())
+		return "", ""
+	}
+	defer rg.Close()
+	connected, relayed := false, 0
+	var derr error
+	rs, serr := harness.Serve(harness.ServerConfig{Storage: st}, func(addr string) {
+		rl, err := harness.NewRelay(addr, rg.Addr)
+		if err != nil {
+			derr = err
+			return
+		}
+		conn, e := protocol.Dial(harness.Ctx, node, rl.Addr)
+		derr = e
+		if conn != nil {
+			connected = e == nil
+			conn.Close()
+		}
+		relayed = rl.Connections()
+		rl.Close()
+	})
+	defer harness.CloseAll(rs)
+	if serr != nil {
+		r.InfraError(serr.Error())
+		return "", ""
+	}
+	stored, lerr := types.LoadNodeCredentials(harness.Ctx, node, nodeenrollment.CurrentId)
+	if lerr != nil || len(stored.CertificateBundles) != 2 {
+		return "relay:fetch-did-not-complete", fmt.Sprintf("the relayed fetch handshake did not leave the node with its credentials (%v, dial error %v)", lerr, derr)
+	}
+	switch {
+	case connected && !mayConnect(kind):
+		return "connected-to-rogue:after-own-fetch:" + kind, fmt.Sprintf("in the Dial that had just fetched the node's credentials from the real server, the authentication handshake was completed with a rogue server of kind %q (%s; %d connections relayed)", kind, rg, relayed)
+	case !connected && mayConnect(kind):
+		return "refused-trusted-server:after-own-fetch:" + kind, fmt.Sprintf("after its own fetch the Dial refused a server that presents a chain to a trusted root with this connection's nonce (%s): %v", kind, derr)
+	}
+	if relayed < 2 {
+		r.InfraError(fmt.Sprintf("the relay saw %d connections, expected the fetch and at least one authentication handshake", relayed))
+		return "", ""
+	}
+	r.Branch("relay:fetched-then-" + map[bool]string{true: "accepted-trusted-root", false: "rejected"}[connected])
+	return "", ""
+}
+
 func (w *world) oneHonest(k kase, r *engine.Report) (string, string) {
 	vclock.Freeze(dialTime)
 	st := harness.NewMemStore()
@@ -211,7 +279,7 @@ func (w *world) oneHonest(k kase, r *engine.Report) (string, string) {
 		dopt = append(dopt, nodeenrollment.WithExtraAlpnProtos([]string{"one", "two"}))
 	}
 	if k.State {
-		dopt = append(dopt, nodeenrollment.WithState(harness.Struct(map[string]any{"s": 1.0})))
+		dopt = append(dopt, nodeenrollment.WithState(harness.Struct(map[string]any{"s": 1.0, "site": "dc-1", "tier": "gold", "tags": []any{"a", "b"}, "owner": "alice", "zone": "z9", "rack": 12.0, "slot": 3.0, "role": "worker", "gen": 7.0, "pool": "p2", "env": "prod"})))
 	}
 	var derr error
 	rs, serr := harness.Serve(harness.ServerConfig{Storage: st, Options: sopt, Unix: k.Unix}, func(addr string) {
@@ -510,7 +578,7 @@ func (w *world) runHistories(c *engine.Ctx, r *engine.Report) {
 }
 
 func run(c *engine.Ctx, r *engine.Report) {
-	r.Need("rogue:rejected", "rogue:accepted-trusted-root", "honest:connected", "honest:unix", "client-configs:one-per-chain", "history:with-node-storage-wrapper", "history:not-authorized", "history:fetched-and-connected", "history:connected")
+	r.Need("rogue:rejected", "rogue:accepted-trusted-root", "relay:fetched-then-rejected", "relay:fetched-then-accepted-trusted-root", "honest:connected", "honest:unix", "client-configs:one-per-chain", "history:with-node-storage-wrapper", "history:not-authorized", "history:fetched-and-connected", "history:connected")
 	w := newWorld(c.Seed)
 	i := 0
 	for _, kind := range rogueKinds {
@@ -525,6 +593,18 @@ func run(c *engine.Ctx, r *engine.Report) {
 		}
 		r.Nontrivial(1)
 		r.Sample(map[string]any{"rogue": kind, "may_connect": mayConnect(kind)})
+	}
+	for _, kind := range rogueKinds {
+		i++
+		if !c.Mine(i) {
+			continue
+		}
+		r.Eval(1)
+		if sig, msg := w.oneRelay(kind, r); sig != "" {
+			r.Violate(sig, msg, kase{Part: "relay", Kind: kind, Seed: c.Seed})
+			continue
+		}
+		r.Nontrivial(1)
 	}
 	for m := 0; m < 16; m++ {
 		i++
@@ -580,6 +660,8 @@ func replay(c *engine.Ctx, raw json.RawMessage) (string, bool) {
 	switch k.Part {
 	case "rogue":
 		sig, msg = w.oneRogue(k.Kind, r)
+	case "relay":
+		sig, msg = w.oneRelay(k.Kind, r)
 	case "honest":
 		sig, msg = w.oneHonest(k, r)
 	case "configs":
